@@ -127,7 +127,7 @@ PROPS = {
     ),
     'C13': dict(
         title='coroutines: each suspension resumed exactly once, on its executor, right result',
-        quick=[mc('mc_coro', 'all', 'sc', P=2, E=1, budget=150), mc('mc_coro', '0,1,2,4,5,6,9', 'tso', P=1, D=1, E=0, budget=100)],
+        quick=[mc('mc_coro', 'all', 'sc', P=2, E=1, budget=150), mc('mc_coro', '0,1,2,4,5,6,9,10,11', 'tso', P=1, D=1, E=0, budget=100)],
         thorough=[mc('mc_coro', 'all', 'sc', P=3, E=1, budget=1500), mc('mc_coro', 'all', 'tso', P=2, D=1, E=0, budget=900)],
         oracle='per suspension a resume counter that must be exactly 1 at the end (0 = left suspended, 2 = double resume, also caught by the freed-frame oracle), resumption observed inside the bound executor, awaited value / empty optional iff the cancel call returned true, wake_one/wake_all return values vs coroutines actually resumed, DepositBox slots ever allocated <= simultaneously pending waits, HB race detector on the recycled per-wait nodes',
     ),
